@@ -380,6 +380,8 @@ class Interp:
 
         if hasattr(_b, name):
             raise OutOfSubset(f"builtin {name} is not modelled")
+        if self.spec:
+            raise OutOfSubset(f"specification clause refers to the unknown name {name!r}")
         # not a local, not a module global, not a builtin: Python raises NameError / UnboundLocalError here
         self.raise_builtin("NameError", f"name '{name}' is not defined")
 
@@ -729,6 +731,7 @@ class Interp:
                 exc = self.make_exc(cls, ())
                 env.vars["raised"] = cls.name
             env.vars["result"] = None
+            env.vars["exc"] = exc
             for k, cl in c.raises_ensures.items():
                 self.path.assume(truthy(self.eval_spec(cl, env, olds)))
             self.abstract_log.append((fq, None, cls.name))
@@ -1153,6 +1156,13 @@ class Interp:
                 if getattr(r, "_from_cm", False):
                     return
                 raise
+            return
+        if isinstance(cm, self.B.SuppressCM):
+            try:
+                self.with_items(items[1:], body, env)
+            except PyExc as e:
+                if not self.exc_matches(e.exc, cm.classes):
+                    raise
             return
         if isinstance(cm, self.B.NoopCM):
             if item.optional_vars is not None:
